@@ -354,3 +354,71 @@ Proof.
     + rewrite A2, A1. reflexivity.
 Qed.
 End Inv.
+
+(* ------------------------------------------------------------------ what is handed to the muxer is in the buffer *)
+Lemma window_fill_emits : forall fr b u,
+  Forall (fun e : emit => In (snd e) (fst (fst (window_fill fr b u)))) (snd (window_fill fr b u)).
+Proof.
+  induction fr as [|f r IH]; intros; simpl. constructor.
+  destruct (0 <? b)%Z; [|constructor]. destruct (sf_queued f).
+  - specialize (IH b u). destruct (window_fill r b u) as [[a c] d]. simpl in *.
+    eapply Forall_impl; [|exact IH]. simpl. auto.
+  - specialize (IH (b - 1)%Z ((u + 1) mod two16)). destruct (window_fill r _ _) as [[a c] d]. simpl in *.
+    constructor. simpl; auto. eapply Forall_impl; [|exact IH]. simpl. auto.
+Qed.
+Lemma rto_mark_emits : forall fr n u,
+  Forall (fun e : emit => In (snd e) (fst (fst (rto_mark fr n u)))) (snd (rto_mark fr n u)).
+Proof.
+  induction fr as [|f r IH]; intros; simpl. constructor.
+  destruct (0 <? n)%Z; [|constructor].
+  match goal with |- context [rto_mark r ?a ?b] => specialize (IH a b); destruct (rto_mark r a b) as [[x y] z] end.
+  simpl in *. constructor. simpl; auto. eapply Forall_impl; [|exact IH]. simpl. auto.
+Qed.
+Lemma find_frame_emits : forall frames fuel no, Forall (fun e : emit => In (snd e) frames) (find_frame frames fuel no).
+Proof.
+  induction frames as [|f r IH]; intros; destruct fuel; simpl; try constructor.
+  destruct ((sf_no f =? no) && sf_queued f). constructor; simpl; auto.
+  destruct (no <? sf_no f). constructor. eapply Forall_impl; [|apply IH]. simpl. auto.
+Qed.
+
+Definition emitted_in (em : list emit) (s : sender) : Prop :=
+  Forall (fun e : emit => In (sf_proj (snd e)) (map sf_proj (s_frames s))) em.
+
+Lemma in_proj : forall f l, In f l -> In (sf_proj f) (map sf_proj l).
+Proof. intros. apply in_map. auto. Qed.
+
+Lemma window_open_emits : forall s, emitted_in (snd (window_open s)) (fst (window_open s)) /\
+  map sf_proj (s_frames (fst (window_open s))) = map sf_proj (s_frames s).
+Proof.
+  intros. unfold window_open, emitted_in. destruct (s_closed s); simpl. split; auto.
+  pose proof (window_fill_emits (s_frames s) (frames_to_send s false 0) (s_unacked s)) as E.
+  pose proof (window_fill_proj (s_frames s) (frames_to_send s false 0) (s_unacked s)) as P.
+  destruct (window_fill _ _ _) as [[a c] d]. simpl in *. split; auto.
+  eapply Forall_impl; [|exact E]. intros e He. apply in_proj. exact He.
+Qed.
+
+Theorem emitted_from_buffer : forall m s o,
+  emitted_in (snd (fst (sstep_m m s o))) (fst (fst (sstep_m m s o))).
+Proof.
+  intros m s o. destruct o as [b|a rtt| |]; cbn [sstep_m].
+  - destruct (write_m m s b) as [[s1 sig]| |]; try (constructor).
+    destruct sig; [|constructor].
+    pose proof (window_open_emits s1) as [E _]. destruct (window_open s1). exact E.
+  - destruct (s_closed s); [constructor|].
+    destruct (recv_ack s a rtt) as [[[s1 mi] sig]| |]; try constructor.
+    assert (E1: emitted_in (if mi =? 0 then [] else send_frame_by_number s1 mi) s1).
+    { destruct (mi =? 0); [constructor|]. unfold send_frame_by_number. destruct (_ <? _); [constructor|].
+      eapply Forall_impl; [|apply find_frame_emits]. intros e He. apply in_proj. exact He. }
+    destruct sig; [|exact E1].
+    pose proof (window_open_emits s1) as [E2 P]. destruct (window_open s1) as [s2 em2]. cbn [fst snd] in *.
+    apply Forall_app. split; auto. unfold emitted_in in *. rewrite P. exact E1.
+  - unfold rto_tick, rto_tick_common. destruct (s_closed s); [constructor|].
+    pose proof (rto_mark_emits (s_frames s) (frames_to_send s true 0) (s_unacked s)) as E.
+    destruct (rto_mark _ _ _) as [[fr u] em]. cbn [fst snd] in *.
+    assert (G: forall s', s_frames s' = fr -> emitted_in em s').
+    { intros s' Hs. unfold emitted_in. rewrite Hs. eapply Forall_impl; [|exact E]. intros e He. apply in_proj. exact He. }
+    repeat match goal with |- context [if ?c then _ else _] => destruct c end; cbn [fst snd]; apply G; reflexivity.
+  - destruct (s_closed s); [constructor|]. unfold send_fin. destruct (s_fin_sent s); [constructor|]. cbn [fst snd].
+    destruct (s_frames s) eqn:F; [|constructor].
+    constructor; [|constructor]. cbn. left. reflexivity.
+Qed.
